@@ -285,9 +285,13 @@ def gen_term_case(r, idx, wild=False, nops=None, kinds=None):
     if not r.chance(1, 8):
         lines.append("T 0 size %d %d" % (w, h))
     else:
+        if long and not wild:
+            # never told a size: a move, a long line, a move to where the cursor must be
+            lines.append("T 0 move %d %d" % (r.pick([0, 0, 3]), r.below(3)))
         w, h = 0, 0
     es = ElemSource(r, wild, ctl=not wild)
     cur = None
+    armed = False
     n = nops if nops is not None else r.rng(2, 14)
     for _ in range(n):
         k = r.pick(kinds) if kinds else r.below(34)
@@ -345,6 +349,17 @@ def gen_term_case(r, idx, wild=False, nops=None, kinds=None):
             lines.append("T 0 str %d" % m + "".join(" " + es.next() for _ in range(m)))
             if cur is not None:
                 cur = (cur[0] + m, cur[1])
+        elif k < 14 and r.chance(1, 5):
+            # the user presses keys / the terminal answers a status request while the
+            # application is writing: input is decoded, it is not information about
+            # what the display shows
+            if not armed:
+                lines.append("T 0 arm")
+                armed = True
+            lines.append("T 0 recv " + hexs(r.pick([
+                [27, 91, 49, 59, 50, 82], [27, 91] + [ord(ch) for ch in "%d;%dR" % (r.rng(1, 30), r.rng(1, 90))],
+                [27, 91, 65], [27, 91, 53, 126], [27, 79, 80], [13], [97, 98], [27, 91, 77, 32, 40, 40],
+                [27, 91] + [ord(ch) for ch in "8;%d;%dt" % (r.rng(1, 60), r.rng(1, 200))], [27, 91, 63, 49, 59, 50, 99], [27, 91, 48, 110]])))
         elif k < 14:
             if wild and r.chance(1, 3):
                 # the bare manipulator with exactly the default element (element{})
@@ -353,8 +368,32 @@ def gen_term_case(r, idx, wild=False, nops=None, kinds=None):
                     # ... and then something the default rendition needs nothing for
                     lines.append(r.pick(["T 0 elem " + DEFAULT_TXT, "T 0 elem " + el((5, r.rng(33, 126), 0, 0), DEFAULT_ATTR),
                                          "T 0 oda", "T 0 raw " + DEFAULT_TXT, "T 0 erase %d" % r.below(6)]))
-            elif wild or any(re.match(r"T 0 (elem|str|oda|erase)", l) for l in lines):
+            elif wild or any(re.match(r"T 0 (elem|str|oda|erase)", l) for l in lines[max([i for i, l in enumerate(lines) if l == "T 0 forget 0"] + [0]):]):
                 lines.append("T 0 raw " + es.next())
+            if not wild and r.chance(1, 6):
+                # a manipulator of the application's own that marks a belief as unknown
+                kf = r.below(4)
+                if kf == 0:
+                    # "rendition unknown" still means "character set as at the start" to the
+                    # library, so the application may only say so while US ASCII is in use
+                    lastw = next((l for l in reversed(lines) if re.match(r"T 0 (elem|raw|str|cstr|stdstr|use) ", l)), None)
+                    ok = lastw is None or lastw.split()[2] in ("cstr", "stdstr") or \
+                        (lastw.split()[2] != "use" and len(lastw.split()) >= 19 and lastw.split()[-16] == "5")
+                    if not ok:
+                        kf = 1
+                lines.append("T 0 forget %d" % kf)
+                if kf == 1:
+                    cur = None
+            if not wild and r.chance(1, 8):
+                # a manipulator object made once and streamed (again)
+                if not any(l.startswith("O 7 ") for l in lines):
+                    x, y = r.below(max(w, 1)), r.below(max(h, 1))
+                    lines.append(r.pick(["O 7 title 6869", "O 7 move %d %d" % (x, y), "O 7 hide", "O 7 show", "O 7 mouse 1", "O 7 mouse 0", "O 7 erase"]))
+                if not (lines[-1].startswith("O 7 move") and w == 0) and not (w == 0 and any(l.startswith("O 7 move") for l in lines)):
+                    lines.append("T 0 use 7")
+                    mv = next((l for l in lines if l.startswith("O 7 move")), None)
+                    if mv:
+                        cur = (int(mv.split()[3]), int(mv.split()[4]))
             if r.chance(1, 6):
                 # the channel is not alive for a while (a connection that queues until
                 # it is established, or one that is draining): nothing about what the
@@ -564,6 +603,11 @@ def gen_canvas_case(r, idx, exhaustive=None):
         if r.chance(1, 40):
             w, h = r.pick([16, 17, 32, 33, 64, 65]), r.pick([1, 2, 16, 17])
             w2, h2 = r.pick([w, 15, 16, 33, 64, 70]), r.pick([h, 1, 3, 16, 18])
+        if idx % 700 == 3:
+            # a large canvas (a full-screen application on a big display) reshaped within
+            # its capacity: narrower and taller, wider and shorter
+            w, h = r.pick([(200, 50), (128, 64), (91, 91), (256, 33)])
+            w2, h2 = r.pick([(w - 40, h + 10), (w + 20, h - 10), (w - 1, h + 1), (h, w)])
     lines.append("K 0 new %d %d" % (w, h))
     n = 0
     for y in range(h):
@@ -1098,7 +1142,7 @@ def gen_keyseq_case(r, idx):
         intro = r.pick([[27, 91], [27, 27, 91], [155]])
         def num(v):
             # parameters may be written with leading zeros (ECMA-48 5.4.1)
-            z = r.pick([0, 0, 0, 1, 2, 9, 10, 16, 17, 18, 19, 20, 40]) if r.chance(1, 4) else 0
+            z = r.pick([0, 0, 0, 1, 2, 9, 10, 16, 17, 18, 19, 20, 40, 62, 63, 64, 65, 127, 128, 300]) if r.chance(1, 4) else 0
             return b"0" * z + str(v).encode()
         if r.chance(1, 2):
             m = r.pick([-1, 1, 2, 5, 16, 17, 258, (1 << 32) + 2])
@@ -1186,7 +1230,9 @@ def gen_strobj_case(r, idx):
         else:
             t = r.pick(ids)
             n = size[t]
-            if c == 5:
+            if c == 5 and n > 0 and r.chance(1, 3):
+                lines.append("Z %d appendown %d" % (t, r.pick([0, n - 1, r.below(n)]))); size[t] += 1
+            elif c == 5:
                 lines.append("Z %d appendelem %s" % (t, an_elem())); size[t] += 1
             elif c == 6:
                 o = r.pick(ids); lines.append("Z %d append %d" % (t, o)); size[t] += size[o]
@@ -1308,6 +1354,7 @@ def gen_canvas_alias_case(r, idx):
             lines.append("K 0 set %d %d %s" % (x, y, el((5, 0x41 + n % 50, 0, 0), DEFAULT_ATTR)))
     k = 1
     held = {}       # canvas id -> True while a handle taken on it is still valid
+    heldpos = {}    # canvas id -> the cell the handles were taken on
     for _ in range(r.rng(2, 8)):
         c = r.below(8)
         ids = sorted(dims)
@@ -1321,14 +1368,20 @@ def gen_canvas_alias_case(r, idx):
             t = r.pick(ids)
             tw, th = dims[t]
             if tw * th > 0:
-                lines.append("K %d hold %d %d" % (t, r.below(tw), r.below(th)))
+                hx, hy = r.below(tw), r.below(th)
+                lines.append("K %d hold %d %d" % (t, hx, hy))
                 held[t] = True
+                heldpos[t] = (hx, hy)
             continue
         elif c == 7:
-            # ... and write through it later (after copies of the canvas were made)
+            # ... and write through it later (after copies of the canvas were made).  An
+            # iterator or a reference dies with a resize or an assignment; a column handle
+            # names column x of the canvas whatever shape it has taken since
             t = r.pick(ids)
             if held.get(t):
                 lines.append("K %d heldset %d %s" % (t, r.below(3), el(wf_glyph(r), wf_attr(r))))
+            elif t in heldpos and heldpos[t][0] < dims[t][0] and heldpos[t][1] < dims[t][1]:
+                lines.append("K %d heldset 1 %s" % (t, el(wf_glyph(r), wf_attr(r))))
             else:
                 continue
         elif c == 5 and r.chance(1, 2):
@@ -1342,6 +1395,7 @@ def gen_canvas_alias_case(r, idx):
             dims[k] = dims[t]
             del dims[t]
             held[t] = False
+            heldpos.pop(t, None)
             k += 1
         else:
             t = r.pick(ids)
